@@ -98,6 +98,31 @@ def expectedAt (cs : List (Call String)) (i : Nat) : Json :=
     | none => .null
   | _ => .null
 
+/-- the 8 bytes of a float64 given as its bit pattern (a signed 64-bit token), lowest first -/
+def tokBytes (t : Int) : List Nat := le64 (t % 18446744073709551616).toNat
+
+/-- the bit-pattern token of 8 bytes, lowest first -/
+def bytesTok (g : List Nat) : Int :=
+  let n := ofLe64 g
+  if n < 9223372036854775808 then (n : Int) else (n : Int) - 18446744073709551616
+
+def hexDigit (d : Nat) : Char := if d < 10 then Char.ofNat (48 + d) else Char.ofNat (87 + d)
+
+def hexOf (bs : List Nat) : String := String.ofList (bs.flatMap fun b => [hexDigit (b / 16), hexDigit (b % 16)])
+
+def hexVal (c : Char) : R Nat :=
+  if 48 ≤ c.toNat ∧ c.toNat ≤ 57 then pure (c.toNat - 48)
+  else if 97 ≤ c.toNat ∧ c.toNat ≤ 102 then pure (c.toNat - 87)
+  else throw s!"bad hex digit {c}"
+
+def unhex : List Char → R (List Nat)
+  | [] => pure []
+  | [_] => throw "odd number of hex digits"
+  | a :: b :: r => do
+    let x ← hexVal a
+    let y ← hexVal b
+    pure ((x * 16 + y) :: (← unhex r))
+
 def handle (op : String) (req : Json) : R Json := do
   match op with
   | "c16.session" =>
@@ -203,21 +228,37 @@ def handle (op : String) (req : Json) : R Json := do
       ("blocks", jList (fun (b : List Int) => jBlock (some (b.length * 8, b))) specBlocks),
       ("appended", jList jWord (appended specBlocks))]
     let okB := headOkB endian spacing (fields.map (·.name))
+    let little := endian == endianName true
     -- the Lean reader on the real header text (null: the text is outside the subset the reader handles)
-    let realMeta := if inReaderSubset realHead then jOpt jMeta (vtkParse realHead) else .null
+    let realParsed := if inReaderSubset realHead then vtkParse realHead else none
+    let realMeta := jOpt jMeta realParsed
+    -- ... and on the real appended bytes (`body`: hex, or null when the harness does not send them): the block
+    -- found at every offset the real header declares
+    let realBody ← fld req "body" >>= asOpt (fun j => do unhex (← asStr j).toList)
+    let realBlocks := match realParsed, realBody with
+      | some m, some bytes => jList (fun (a : ArrayMeta) =>
+          jBlock ((readBlockBytes little bytes a.offset).map fun (n, gs) => (n, gs.map bytesTok))) m.arrays
+      | _, _ => .null
     match vtkRender endian spacing img with
     | none =>
       pure (jObj [("rendered", .null), ("model", jObj [("raises", jBool true)]), ("spec", specSide),
-                  ("head_ok", jBool okB), ("real_meta", realMeta)])
+                  ("head_ok", jBool okB), ("real_meta", realMeta), ("real_blocks", realBlocks)])
     | some file =>
+      -- the bytes of the appended section as the model writes them (every word in the machine's byte order)
+      let bytes := bodyBytes little tokBytes file.body
       let modelSide := match vtkParse file.head with
         | none => jObj [("unreadable", jBool true)]
         | some m => jObj [("meta", jMeta m),
             ("blocks", jList (fun (a : ArrayMeta) => jBlock (readBlock file.body a.offset)) m.arrays),
+            -- the byte-level reader on the model's own bytes: equal to `blocks` by theorem `vtk_bytes_read_back`
+            ("byte_blocks", jList (fun (a : ArrayMeta) =>
+              jBlock ((readBlockBytes little bytes a.offset).map fun (n, gs) => (n, gs.map bytesTok))) m.arrays),
             ("appended", jList jWord file.body)]
       pure (jObj [
-        ("rendered", jObj [("head", jS file.head), ("words", jList jWord file.body), ("tail", jS file.tail)]),
-        ("model", modelSide), ("spec", specSide), ("head_ok", jBool okB), ("real_meta", realMeta)])
+        ("rendered", jObj [("head", jS file.head), ("words", jList jWord file.body), ("body_hex", jStr (hexOf bytes)),
+                           ("tail", jS file.tail)]),
+        ("model", modelSide), ("spec", specSide), ("head_ok", jBool okB), ("real_meta", realMeta),
+        ("real_blocks", realBlocks)])
   | _ => throw s!"unknown op {op}"
 
 end PewDriver.C16
